@@ -20,6 +20,7 @@ var checks = map[string]func(string) int{
 	"C05": e1.RunC05,
 	"C06": e2.RunC06,
 	"C07": e2.RunC07,
+	"C08": e5.RunC08,
 	"C09": e2.RunC09,
 	"C10": e5.RunC10,
 	"C11": e6.RunC11,
